@@ -102,88 +102,100 @@ def check_class(prog, rep, modname, cname):
             rep.ok("accessor-same-container", f"{cname}.__iter__ yields from self.{containers['__iter__']}")
         else:
             rep.fail("accessor-same-container", mod, f"{cname}.__iter__", rets[0] if rets else f.node, "__iter__ does not iterate the item list in order")
-    # __getitem__
+    # __getitem__ / __contains__ on path summaries: what each path's guards say about the key's type decides which clause of
+    # the contract the path has to satisfy; the way the dispatch is written (elif chain, guard clauses, merged tests) does not
+    from ..facts import path_returns, split_ifexp, type_facts
+
+    def lookup_gen(v):
+        """(generator, has default) when v is next(<gen over the items>[, None])"""
+        if isinstance(v, ast.Call) and norm(v.func) == "next" and v.args and isinstance(v.args[0], (ast.GeneratorExp, ast.ListComp)):
+            if len(v.args) == 1 and not v.keywords:
+                return v.args[0], False
+            if len(v.args) == 2 and isinstance(v.args[1], ast.Constant) and v.args[1].value is None:
+                return v.args[0], True
+        return None, False
+
     f = meths["__getitem__"]
     key = f.params[0]
-    br, tail = isinstance_branches(f.node, key)
-    types = {t: (body, st) for t, body, st in br}
     fq = f"{cname}.__getitem__"
-    if "int" in types:
-        body, st = types["int"]
-        r = next((s for s in body if isinstance(s, ast.Return)), None)
-        if r is not None and isinstance(r.value, ast.Subscript) and is_self_attr(r.value.value) and norm(r.value.slice) == key:
-            containers["__getitem__/int"] = r.value.value.attr
-            rep.ok("getitem-contract", f"{fq}: int -> self.{r.value.value.attr}[{key}]")
-        else:
-            rep.fail("getitem-contract", mod, fq, r or st, "integer key does not return the item at that list position")
-    else:
-        rep.fail("getitem-contract", mod, fq, f.node, "no integer-key branch", construct=f"{fq} int branch")
-    if "str" in types:
-        body, st = types["str"]
-        gens = [n for s in body for n in ast.walk(s) if isinstance(n, (ast.GeneratorExp, ast.ListComp))]
-        good = False
-        if gens:
-            gen = gens[0]
-            # container
+    seen = {"int": 0, "str": 0, "other": 0, "absent": 0}
+    for pe in path_returns(f.node):
+        tf = type_facts(pe.guards, key)
+        cat = "int" if tf.get("int") else ("str" if tf.get("str") else "other")
+        if pe.kind == "raise":
+            exc = pe.value.func if isinstance(pe.value, ast.Call) else pe.value
+            en = norm(exc) if exc is not None else ""
+            if cat == "other":
+                seen["other"] += 1
+                if en != "TypeError":
+                    rep.fail("getitem-contract", mod, fq, pe.node, f"an unsupported key type raises {en}, not TypeError", construct=f"{fq} fallthrough")
+            elif cat == "str":
+                seen["absent"] += 1
+                if en != "KeyError":
+                    rep.fail("getitem-contract", mod, fq, pe.node, f"an absent label raises {en}, not KeyError (StopIteration must be translated)", construct=f"{fq} absent label")
+            continue
+        v = pe.value
+        if cat == "int":
+            seen["int"] += 1
+            if pe.kind == "return" and isinstance(v, ast.Subscript) and is_self_attr(v.value) and norm(v.slice) == key:
+                containers["__getitem__/int"] = v.value.attr
+                rep.ok("getitem-contract", f"{fq}: int -> self.{v.value.attr}[{key}]")
+            else:
+                rep.fail("getitem-contract", mod, fq, pe.node, "integer key does not return the item at that list position", construct=f"{fq} int branch")
+        elif cat == "str":
+            seen["str"] += 1
+            gen, has_default = lookup_gen(v) if pe.kind == "return" else (None, False)
+            if gen is None:
+                rep.fail("getitem-contract", mod, fq, pe.node, "label lookup does not take the FIRST match in iteration order (next(<generator over the items>))", construct=f"{fq} str branch")
+                continue
             cont = gen.generators[0].iter.attr if is_self_attr(gen.generators[0].iter) else None
             okp, why = label_predicate(gen, key, cont) if cont else (False, f"iterates `{norm(gen.generators[0].iter)}`")
-            # first match: next(gen)
-            nx = [n for s in body for n in ast.walk(s) if isinstance(n, ast.Call) and norm(n.func) == "next" and n.args and n.args[0] is gen]
             if not okp:
-                rep.fail("getitem-contract", mod, fq, st, f"label lookup: {why}")
-            elif not nx:
-                rep.fail("getitem-contract", mod, fq, st, "label lookup does not take the FIRST match in iteration order (next(<generator>))")
-            else:
-                containers["__getitem__/str"] = cont
-                # KeyError when none
-                tr = [s for s in body if isinstance(s, ast.Try)]
-                kerr = False
-                for t in tr:
-                    for h in t.handlers:
-                        if h.type is not None and norm(h.type) == "StopIteration" and raises(h.body, "KeyError"):
-                            kerr = True
-                if len(nx[0].args) > 1:
-                    kerr = False
-                if kerr:
-                    good = True
-                    rep.ok("getitem-contract", f"{fq}: str -> first item of self.{cont} with label == key, KeyError when none", nontrivial=True)
-                else:
-                    rep.fail("getitem-contract", mod, fq, st, "an absent label does not raise KeyError (StopIteration must be translated, no default)")
+                rep.fail("getitem-contract", mod, fq, pe.node, f"label lookup: {why}", construct=f"{fq} label predicate")
+                continue
+            if has_default and not any(norm(t).replace(" ", "") == norm(v).replace(" ", "") + "isnotNone" and pol for t, pol in pe.guards):
+                rep.fail("getitem-contract", mod, fq, pe.node, "an absent label does not raise KeyError (the lookup has a default that is returned)", construct=f"{fq} absent label")
+                continue
+            containers["__getitem__/str"] = cont
+            seen["lookup_default"] = has_default
         else:
-            # for-loop idiom
-            loops = [s for s in body if isinstance(s, ast.For) and is_self_attr(s.iter)]
-            if loops and raises(body, "KeyError"):
-                lp = loops[0]
-                v = norm(lp.target)
-                ifs = [s for s in lp.body if isinstance(s, ast.If)]
-                if ifs and isinstance(ifs[0].test, ast.Compare) and {norm(ifs[0].test.left), norm(ifs[0].test.comparators[0])} == {f"{v}.label", key} \
-                        and isinstance(ifs[0].test.ops[0], ast.Eq) and any(isinstance(s, ast.Return) and norm(s.value) == v for s in ifs[0].body):
-                    containers["__getitem__/str"] = lp.iter.attr
-                    rep.ok("getitem-contract", f"{fq}: str -> first match by loop, KeyError after", nontrivial=True)
-                else:
-                    rep.fail("getitem-contract", mod, fq, lp, "label loop does not return the first item with label == key")
-            else:
-                rep.fail("getitem-contract", mod, fq, st, "label lookup idiom not recognised (next(generator) or for/return + KeyError)")
-    else:
+            seen["other"] += 1
+            rep.fail("getitem-contract", mod, fq, pe.node, "an unsupported key type does not raise TypeError", construct=f"{fq} fallthrough")
+    if not seen["int"]:
+        rep.fail("getitem-contract", mod, fq, f.node, "no integer-key branch", construct=f"{fq} int branch")
+    if not seen["str"]:
         rep.fail("getitem-contract", mod, fq, f.node, "no label-key branch", construct=f"{fq} str branch")
-    if raises(tail, "TypeError"):
+    elif "__getitem__/str" in containers:
+        if seen["absent"]:
+            rep.ok("getitem-contract", f"{fq}: str -> first item of self.{containers['__getitem__/str']} with label == key, KeyError when none", nontrivial=True)
+        else:
+            rep.fail("getitem-contract", mod, fq, f.node, "an absent label does not raise KeyError (StopIteration must be translated, no default)", construct=f"{fq} absent label")
+    if seen["other"]:
         rep.ok("getitem-contract", f"{fq}: any other key type raises TypeError")
     else:
-        rep.fail("getitem-contract", mod, fq, tail[0] if tail else f.node, "an unsupported key type does not raise TypeError", construct=f"{fq} fallthrough")
-    extra = [t for t in types if t not in ("int", "str")]
-    for t in extra:
-        rep.fail("getitem-contract", mod, fq, types[t][1], f"extra dispatch branch `{t}`")
+        rep.fail("getitem-contract", mod, fq, f.node, "an unsupported key type does not raise TypeError", construct=f"{fq} fallthrough")
     # __contains__
     f = meths["__contains__"]
     val = f.params[0]
-    br, tail = isinstance_branches(f.node, val)
     fq = f"{cname}.__contains__"
-    seen_str = seen_item = False
-    for t, body, st in br:
-        r = next((s for s in body if isinstance(s, ast.Return)), None)
-        if t == "str":
+    seen_str = seen_item = seen_other = False
+    for pe in path_returns(f.node):
+        tf = type_facts(pe.guards, val)
+        item_types = [t for t, b in tf.items() if b and t != "str"]
+        cat = "str" if tf.get("str") else ("item" if item_types else "other")
+        if pe.kind == "raise":
+            exc = pe.value.func if isinstance(pe.value, ast.Call) else pe.value
+            en = norm(exc) if exc is not None else ""
+            if cat == "other":
+                seen_other = True
+                if en != "TypeError":
+                    rep.fail("contains-contract", mod, fq, pe.node, f"an unsupported value type raises {en}, not TypeError", construct=f"{fq} fallthrough")
+            else:
+                rep.fail("contains-contract", mod, fq, pe.node, f"membership of a {cat} value raises {en} instead of answering", construct=f"{fq} {cat} raises")
+            continue
+        v = pe.value if pe.kind == "return" else None
+        if cat == "str":
             seen_str = True
-            v = r.value if r is not None else None
             if isinstance(v, ast.Call) and norm(v.func) == "any" and v.args and isinstance(v.args[0], (ast.GeneratorExp, ast.ListComp)):
                 gen = v.args[0]
                 cont = gen.generators[0].iter.attr if is_self_attr(gen.generators[0].iter) else None
@@ -192,27 +204,30 @@ def check_class(prog, rep, modname, cname):
                     containers["__contains__/str"] = cont
                     rep.ok("contains-contract", f"{fq}: str -> any(item.label == value) over self.{cont} (same predicate as lookup)", nontrivial=True)
                 else:
-                    rep.fail("contains-contract", mod, fq, r, f"label membership: {why}")
+                    rep.fail("contains-contract", mod, fq, pe.node, f"label membership: {why}", construct=f"{fq} label predicate")
             else:
-                rep.fail("contains-contract", mod, fq, r or st, "label membership is not any(item.label == value for item in <list>)")
-        elif t.startswith("?"):
-            rep.fail("contains-contract", mod, fq, st, f"dispatch on `{t[1:]}` instead of the value's type")
-        else:
+                rep.fail("contains-contract", mod, fq, pe.node, "label membership is not any(item.label == value for item in <list>)", construct=f"{fq} str branch")
+        elif cat == "item":
             seen_item = True
-            v = r.value if r is not None else None
             if isinstance(v, ast.Compare) and len(v.ops) == 1 and isinstance(v.ops[0], ast.In) and norm(v.left) == val and is_self_attr(v.comparators[0]):
                 containers["__contains__/item"] = v.comparators[0].attr
-                rep.ok("contains-contract", f"{fq}: {t} -> value in self.{v.comparators[0].attr}")
+                rep.ok("contains-contract", f"{fq}: {item_types[0]} -> value in self.{v.comparators[0].attr}")
             else:
-                rep.fail("contains-contract", mod, fq, r or st, "item membership is not `value in <list>`")
+                rep.fail("contains-contract", mod, fq, pe.node, "item membership is not `value in <list>`", construct=f"{fq} item branch")
+        else:
+            others = [norm(t) for t, pol in pe.guards if not (isinstance(t, ast.Call) and norm(t.func) == "isinstance")]
+            if others and not tf:
+                rep.fail("contains-contract", mod, fq, pe.node, f"dispatch on `{others[0]}` instead of the value's type", construct=f"{fq} dispatch")
+            else:
+                rep.fail("contains-contract", mod, fq, pe.node, "an unsupported value type does not raise TypeError", construct=f"{fq} fallthrough")
     if not seen_str:
         rep.fail("contains-contract", mod, fq, f.node, "no label branch", construct=f"{fq} str branch")
     if not seen_item:
         rep.fail("contains-contract", mod, fq, f.node, "no item-object branch", construct=f"{fq} item branch")
-    if raises(tail, "TypeError"):
+    if seen_other:
         rep.ok("contains-contract", f"{fq}: other types raise TypeError")
     else:
-        rep.fail("contains-contract", mod, fq, tail[0] if tail else f.node, "an unsupported value type does not raise TypeError", construct=f"{fq} fallthrough")
+        rep.fail("contains-contract", mod, fq, f.node, "an unsupported value type does not raise TypeError", construct=f"{fq} fallthrough")
     # same container everywhere
     vals = set(containers.values())
     if len(vals) == 1:
